@@ -57,8 +57,10 @@ func runTotal(hdr Header, c any, src string) CaseResult {
 				res.Evals += 3
 				rs.Validate(map[string]any{"type": []any{1.0, "s"}})
 				rs.Validate("s")
-				var inst any = map[string]any{}
-				rs.ApplyDefaults(&inst)
+				for _, inst := range []any{map[string]any{}, nil, map[string]any{"s": nil, "type": nil}, []any{nil}, "s"} {
+					res.Evals++
+					rs.ApplyDefaults(&inst)
+				}
 			}
 			json.Marshal(&s)
 		}
@@ -76,8 +78,10 @@ func runTotal(hdr Header, c any, src string) CaseResult {
 				for _, in := range []any{nil, 1.0, "a", []any{1.0, "a"}, map[string]any{"a": 1.0}} {
 					rs.Validate(in)
 				}
-				var inst any = map[string]any{}
-				rs.ApplyDefaults(&inst)
+				for _, inst := range []any{map[string]any{}, nil, map[string]any{"a": nil}, []any{nil}, 1.0} {
+					res.Evals++
+					rs.ApplyDefaults(&inst)
+				}
 			}
 			json.Marshal(&s)
 		}
